@@ -160,6 +160,12 @@ def _server_ids(fl, op, n1, n2, ws):
         elif name == 'clock-advance':
             sut.run(until=sut.k.now + 120)
         open_n(n2)
+        # every id the server ISSUED (also to a connection its application then rejected): what the connect handler was given
+        handed = [sid_ for kind_, sid_, _ in sut.events if kind_ == 'connect']
+        for i, sid_ in enumerate(handed):
+            if sid_ in handed[:i]:
+                return fail(PROP, 'ID-DUPLICATE', 'connections #%d and #%d of one server (operation %r after the first %d opens, constant '
+                            'random source) were both given the id %r' % (handed.index(sid_), i, name, n1, sid_), **st)
         if len(issued) != n1 + n2:
             return fail(PROP, 'ID-OPEN-FAILS', '%d of %d opens answered with an OPEN packet' % (len(issued), n1 + n2), **st)
         for i, sid in enumerate(issued):
